@@ -4,6 +4,7 @@ CONTRACT_MODULES = ["contracts.sorting", "contracts.refcount", "contracts.tasks"
 FUNCTIONS = ["RefCount.append", "RefCount.extend", "RefCount.remove", "Manager.register", "Manager.unregister", "Manager.set_value"]
 RAC = "rac/c03.py"
 RAC_BUDGET = {"quick": 60, "thorough": 900}
+RAC_MIN = {"quick": 2912, "thorough": 2912}      # fewer run-time evaluations than this = the harness skipped its work: checker broken, not "held"
 DESIGN_REF = "DESIGN.md section 4, C03"
 TECHNIQUE = "contract-based deductive verification (pyvc VC generation from the real AST, z3/cvc5) + run-time contracts on exhaustive short histories"
 TRUSTED = [
